@@ -48,116 +48,155 @@ package state
 // ---- accessors: trusted against T-KV (CBOR round trip assumed) ----
 
 //@ func ImmutableState.Account
-//@   trusted
+//@   props C05 C08
+//@   trustframe
 //@   modifies nothing
-//@   ensures err != nil ==> result0 == nil
-//@   ensures err == nil ==> fresh(result0) && AGen(result0) == GGen[address] && AActB(result0) == GActB[address] && AActS(result0) == GActS[address] && ADebB(result0) == GDebB[address] && ADebS(result0) == GDebS[address]
-//@   ensures err == nil ==> AValid(result0)
-//@   ensures err == nil ==> result0.General.Nonce == GNonce[address]
-//@   ensures err == nil ==> GAcctSum >= StoredSum(address)
-//@   ensures err != nil ==> unavail(err) || ufb("addrInvalid", address)
+//@   ensures-trusted err != nil ==> result0 == nil
+//@   ensures-trusted err == nil ==> fresh(result0) && AGen(result0) == GGen[address] && AActB(result0) == GActB[address] && AActS(result0) == GActS[address] && ADebB(result0) == GDebB[address] && ADebS(result0) == GDebS[address]
+//@   ensures-trusted err == nil ==> AValid(result0)
+//@   ensures-trusted err == nil ==> result0.General.Nonce == GNonce[address]
+//@   ensures-trusted err == nil ==> GAcctSum >= StoredSum(address)
+//@   ensures-trusted err != nil ==> unavail(err) || ufb("addrInvalid", address)
 //@   note GAcctSum >= StoredSum: a sum of non-negative stored balances dominates each summand
+//@   precall \)\.Get$ :: keyId(argAs[[]byte](1)) == keyOf(accountKeyFmt, address)
+//@   note partially verified: the state-tree KEY every read and write of this accessor goes to is checked (call-site obligation, key identity = key format and argument values); what the stored bytes mean (the ghost ledger clauses above, CBOR round trip) stays assumed (ensures-trusted)
 
 //@ func MutableState.SetAccount
-//@   trusted
-//@   ensures err != nil ==> unavail(err)
+//@   props C05 C08
+//@   trustframe
+//@   ensures-trusted err != nil ==> unavail(err)
 //@   requires account != nil
 //@   modifies GGen, GActB, GActS, GDebB, GDebS, GAcctSum, GWrites, GNonce, abciAPI.GTreeW
-//@   ensures abciAPI.OnlyTree(s.ms)
-//@   ensures err == nil ==> mapEq(GNonce, upd(old(GNonce), addr, account.General.Nonce))
-//@   ensures err == nil ==> mapEq(GGen, upd(old(GGen), addr, AGen(account))) && mapEq(GActB, upd(old(GActB), addr, AActB(account))) && mapEq(GActS, upd(old(GActS), addr, AActS(account)))
-//@   ensures err == nil ==> mapEq(GDebB, upd(old(GDebB), addr, ADebB(account))) && mapEq(GDebS, upd(old(GDebS), addr, ADebS(account)))
-//@   ensures err == nil ==> GAcctSum == old(GAcctSum) - old(StoredSum(addr)) + ASum(account)
-//@   ensures err == nil ==> GWrites > old(GWrites)
+//@   ensures-trusted abciAPI.OnlyTree(s.ms)
+//@   ensures-trusted err == nil ==> mapEq(GNonce, upd(old(GNonce), addr, account.General.Nonce))
+//@   ensures-trusted err == nil ==> mapEq(GGen, upd(old(GGen), addr, AGen(account))) && mapEq(GActB, upd(old(GActB), addr, AActB(account))) && mapEq(GActS, upd(old(GActS), addr, AActS(account)))
+//@   ensures-trusted err == nil ==> mapEq(GDebB, upd(old(GDebB), addr, ADebB(account))) && mapEq(GDebS, upd(old(GDebS), addr, ADebS(account)))
+//@   ensures-trusted err == nil ==> GAcctSum == old(GAcctSum) - old(StoredSum(addr)) + ASum(account)
+//@   ensures-trusted err == nil ==> GWrites > old(GWrites)
+//@   precall KeyValueTree\)\.(Insert|Remove)$ :: keyId(argAs[[]byte](1)) == keyOf(accountKeyFmt, addr) || keyId(argAs[[]byte](1)) == keyOf(commissionScheduleAddressesKeyFmt, addr)
+//@   note partially verified: the state-tree KEY every read and write of this accessor goes to is checked (call-site obligation, key identity = key format and argument values); what the stored bytes mean (the ghost ledger clauses above, CBOR round trip) stays assumed (ensures-trusted)
 
 //@ func ImmutableState.CommonPool
-//@   trusted
-//@   ensures err != nil ==> unavail(err)
+//@   props C05 C08
+//@   trustframe
+//@   ensures-trusted err != nil ==> unavail(err)
 //@   modifies nothing
-//@   ensures err != nil ==> result0 == nil
-//@   ensures err == nil ==> fresh(result0) && QV(result0) == GCommon && GCommon >= 0
+//@   ensures-trusted err != nil ==> result0 == nil
+//@   ensures-trusted err == nil ==> fresh(result0) && QV(result0) == GCommon && GCommon >= 0
+//@   precall loadStoredBalance$ :: argIs(1, commonPoolKeyFmt)
+//@   note partially verified: the state-tree KEY every read and write of this accessor goes to is checked (call-site obligation, key identity = key format and argument values); what the stored bytes mean (the ghost ledger clauses above, CBOR round trip) stays assumed (ensures-trusted)
 
 //@ func MutableState.SetCommonPool
-//@   trusted
-//@   ensures err != nil ==> unavail(err)
+//@   props C05 C08
+//@   trustframe
+//@   ensures-trusted err != nil ==> unavail(err)
 //@   requires q != nil
 //@   modifies GCommon, GWrites, abciAPI.GTreeW
-//@   ensures abciAPI.OnlyTree(s.ms)
-//@   ensures err == nil ==> GCommon == QV(q) && GWrites > old(GWrites)
+//@   ensures-trusted abciAPI.OnlyTree(s.ms)
+//@   ensures-trusted err == nil ==> GCommon == QV(q) && GWrites > old(GWrites)
+//@   precall KeyValueTree\)\.Insert$ :: keyId(argAs[[]byte](1)) == keyOf(commonPoolKeyFmt)
+//@   note partially verified: the state-tree KEY every read and write of this accessor goes to is checked (call-site obligation, key identity = key format and argument values); what the stored bytes mean (the ghost ledger clauses above, CBOR round trip) stays assumed (ensures-trusted)
 
 //@ func ImmutableState.TotalSupply
-//@   trusted
-//@   ensures err != nil ==> unavail(err)
+//@   props C05 C08
+//@   trustframe
+//@   ensures-trusted err != nil ==> unavail(err)
 //@   modifies nothing
-//@   ensures err != nil ==> result0 == nil
-//@   ensures err == nil ==> fresh(result0) && QV(result0) == GSupply && GSupply >= 0
+//@   ensures-trusted err != nil ==> result0 == nil
+//@   ensures-trusted err == nil ==> fresh(result0) && QV(result0) == GSupply && GSupply >= 0
+//@   precall loadStoredBalance$ :: argIs(1, totalSupplyKeyFmt)
+//@   note partially verified: the state-tree KEY every read and write of this accessor goes to is checked (call-site obligation, key identity = key format and argument values); what the stored bytes mean (the ghost ledger clauses above, CBOR round trip) stays assumed (ensures-trusted)
 
 //@ func MutableState.SetTotalSupply
-//@   trusted
-//@   ensures err != nil ==> unavail(err)
+//@   props C05 C08
+//@   trustframe
+//@   ensures-trusted err != nil ==> unavail(err)
 //@   requires q != nil
 //@   modifies GSupply, GWrites, abciAPI.GTreeW
-//@   ensures abciAPI.OnlyTree(s.ms)
-//@   ensures err == nil ==> GSupply == QV(q) && GWrites > old(GWrites)
+//@   ensures-trusted abciAPI.OnlyTree(s.ms)
+//@   ensures-trusted err == nil ==> GSupply == QV(q) && GWrites > old(GWrites)
+//@   precall KeyValueTree\)\.Insert$ :: keyId(argAs[[]byte](1)) == keyOf(totalSupplyKeyFmt)
+//@   note partially verified: the state-tree KEY every read and write of this accessor goes to is checked (call-site obligation, key identity = key format and argument values); what the stored bytes mean (the ghost ledger clauses above, CBOR round trip) stays assumed (ensures-trusted)
 
 //@ func ImmutableState.LastBlockFees
-//@   trusted
-//@   ensures err != nil ==> unavail(err)
+//@   props C05 C08
+//@   trustframe
+//@   ensures-trusted err != nil ==> unavail(err)
 //@   modifies nothing
-//@   ensures err != nil ==> result0 == nil
-//@   ensures err == nil ==> fresh(result0) && QV(result0) == GLastFees && GLastFees >= 0
+//@   ensures-trusted err != nil ==> result0 == nil
+//@   ensures-trusted err == nil ==> fresh(result0) && QV(result0) == GLastFees && GLastFees >= 0
+//@   precall loadStoredBalance$ :: argIs(1, lastBlockFeesKeyFmt)
+//@   note partially verified: the state-tree KEY every read and write of this accessor goes to is checked (call-site obligation, key identity = key format and argument values); what the stored bytes mean (the ghost ledger clauses above, CBOR round trip) stays assumed (ensures-trusted)
 
 //@ func MutableState.SetLastBlockFees
-//@   trusted
-//@   ensures err != nil ==> unavail(err)
+//@   props C05 C08
+//@   trustframe
+//@   ensures-trusted err != nil ==> unavail(err)
 //@   requires q != nil
 //@   modifies GLastFees, GWrites, abciAPI.GTreeW
-//@   ensures abciAPI.OnlyTree(s.ms)
-//@   ensures err == nil ==> GLastFees == QV(q) && GWrites > old(GWrites)
+//@   ensures-trusted abciAPI.OnlyTree(s.ms)
+//@   ensures-trusted err == nil ==> GLastFees == QV(q) && GWrites > old(GWrites)
+//@   precall KeyValueTree\)\.Insert$ :: keyId(argAs[[]byte](1)) == keyOf(lastBlockFeesKeyFmt)
+//@   note partially verified: the state-tree KEY every read and write of this accessor goes to is checked (call-site obligation, key identity = key format and argument values); what the stored bytes mean (the ghost ledger clauses above, CBOR round trip) stays assumed (ensures-trusted)
 
 //@ func ImmutableState.GovernanceDeposits
-//@   trusted
-//@   ensures err != nil ==> unavail(err)
+//@   props C05 C08
+//@   trustframe
+//@   ensures-trusted err != nil ==> unavail(err)
 //@   modifies nothing
-//@   ensures err != nil ==> result0 == nil
-//@   ensures err == nil ==> fresh(result0) && QV(result0) == GGovDep && GGovDep >= 0
+//@   ensures-trusted err != nil ==> result0 == nil
+//@   ensures-trusted err == nil ==> fresh(result0) && QV(result0) == GGovDep && GGovDep >= 0
+//@   precall loadStoredBalance$ :: argIs(1, governanceDepositsKeyFmt)
+//@   note partially verified: the state-tree KEY every read and write of this accessor goes to is checked (call-site obligation, key identity = key format and argument values); what the stored bytes mean (the ghost ledger clauses above, CBOR round trip) stays assumed (ensures-trusted)
 
 //@ func MutableState.SetGovernanceDeposits
-//@   trusted
-//@   ensures err != nil ==> unavail(err)
+//@   props C05 C08
+//@   trustframe
+//@   ensures-trusted err != nil ==> unavail(err)
 //@   requires q != nil
 //@   modifies GGovDep, GWrites, abciAPI.GTreeW
-//@   ensures abciAPI.OnlyTree(s.ms)
-//@   ensures err == nil ==> GGovDep == QV(q) && GWrites > old(GWrites)
+//@   ensures-trusted abciAPI.OnlyTree(s.ms)
+//@   ensures-trusted err == nil ==> GGovDep == QV(q) && GWrites > old(GWrites)
+//@   precall KeyValueTree\)\.Insert$ :: keyId(argAs[[]byte](1)) == keyOf(governanceDepositsKeyFmt)
+//@   note partially verified: the state-tree KEY every read and write of this accessor goes to is checked (call-site obligation, key identity = key format and argument values); what the stored bytes mean (the ghost ledger clauses above, CBOR round trip) stays assumed (ensures-trusted)
 
 //@ func ImmutableState.Delegation
-//@   trusted
-//@   ensures err != nil ==> unavail(err)
+//@   props C05 C08
+//@   trustframe
+//@   ensures-trusted err != nil ==> unavail(err)
 //@   modifies nothing
-//@   ensures err != nil ==> result0 == nil
-//@   ensures err == nil ==> fresh(result0) && QV(&result0.Shares) == GDel[escrowAddr][delegatorAddr] && QV(&result0.Shares) >= 0
+//@   ensures-trusted err != nil ==> result0 == nil
+//@   ensures-trusted err == nil ==> fresh(result0) && QV(&result0.Shares) == GDel[escrowAddr][delegatorAddr] && QV(&result0.Shares) >= 0
+//@   precall \)\.Get$ :: keyId(argAs[[]byte](1)) == keyOf(delegationKeyFmt, escrowAddr, delegatorAddr)
+//@   note partially verified: the state-tree KEY every read and write of this accessor goes to is checked (call-site obligation, key identity = key format and argument values); what the stored bytes mean (the ghost ledger clauses above, CBOR round trip) stays assumed (ensures-trusted)
 
 //@ func MutableState.SetDelegation
-//@   trusted
-//@   ensures err != nil ==> unavail(err)
+//@   props C05 C08
+//@   trustframe
+//@   ensures-trusted err != nil ==> unavail(err)
 //@   requires d != nil
 //@   modifies GDel, GDelSum, GWrites, abciAPI.GTreeW
-//@   ensures abciAPI.OnlyTree(s.ms)
-//@   ensures err == nil ==> mapEq(GDel, upd(old(GDel), escrowAddr, upd(old(GDel)[escrowAddr], delegatorAddr, QV(&d.Shares))))
-//@   ensures err == nil ==> mapEq(GDelSum, upd(old(GDelSum), escrowAddr, old(GDelSum)[escrowAddr] - old(GDel)[escrowAddr][delegatorAddr] + QV(&d.Shares)))
-//@   ensures err == nil ==> GWrites > old(GWrites)
+//@   ensures-trusted abciAPI.OnlyTree(s.ms)
+//@   ensures-trusted err == nil ==> mapEq(GDel, upd(old(GDel), escrowAddr, upd(old(GDel)[escrowAddr], delegatorAddr, QV(&d.Shares))))
+//@   ensures-trusted err == nil ==> mapEq(GDelSum, upd(old(GDelSum), escrowAddr, old(GDelSum)[escrowAddr] - old(GDel)[escrowAddr][delegatorAddr] + QV(&d.Shares)))
+//@   ensures-trusted err == nil ==> GWrites > old(GWrites)
+//@   precall KeyValueTree\)\.(Insert|Remove)$ :: keyId(argAs[[]byte](1)) == keyOf(delegationKeyFmt, escrowAddr, delegatorAddr) || keyId(argAs[[]byte](1)) == keyOf(delegationKeyReverseFmt, delegatorAddr, escrowAddr)
+//@   note partially verified: the state-tree KEY every read and write of this accessor goes to is checked (call-site obligation, key identity = key format and argument values); what the stored bytes mean (the ghost ledger clauses above, CBOR round trip) stays assumed (ensures-trusted)
 
 //@ func ImmutableState.ConsensusParameters
-//@   trusted
-//@   ensures err != nil ==> unavail(err)
+//@   props C05 C08 C10
+//@   trustframe
+//@   ensures-trusted err != nil ==> unavail(err)
 //@   modifies nothing
-//@   ensures err != nil ==> result0 == nil
-//@   ensures err == nil ==> fresh(result0)
-//@   ensures err == nil ==> QV(&result0.MinTransactBalance) >= 0 && QV(&result0.CommissionScheduleRules.MinCommissionRate) >= 0 && QV(&result0.MinDelegationAmount) >= 0
-//@   ensures err == nil ==> QV(&result0.RewardFactorEpochSigned) >= 0 && QV(&result0.RewardFactorBlockProposed) >= 0
-//@   ensures err == nil ==> QV(&result0.FeeSplitWeightPropose) >= 0 && QV(&result0.FeeSplitWeightVote) >= 0 && QV(&result0.FeeSplitWeightNextPropose) >= 0
-//@   ensures err == nil && ufb("feeSplitNotAllZero", s) ==> QV(&result0.FeeSplitWeightPropose) + QV(&result0.FeeSplitWeightVote) + QV(&result0.FeeSplitWeightNextPropose) > 0
+//@   ensures-trusted err != nil ==> result0 == nil
+//@   ensures-trusted err == nil ==> fresh(result0)
+//@   ensures-trusted err == nil ==> QV(&result0.MinTransactBalance) >= 0 && QV(&result0.CommissionScheduleRules.MinCommissionRate) >= 0 && QV(&result0.MinDelegationAmount) >= 0
+//@   ensures-trusted err == nil ==> QV(&result0.RewardFactorEpochSigned) >= 0 && QV(&result0.RewardFactorBlockProposed) >= 0
+//@   ensures-trusted err == nil ==> QV(&result0.FeeSplitWeightPropose) >= 0 && QV(&result0.FeeSplitWeightVote) >= 0 && QV(&result0.FeeSplitWeightNextPropose) >= 0
+//@   ensures-trusted err == nil && ufb("feeSplitNotAllZero", s) ==> QV(&result0.FeeSplitWeightPropose) + QV(&result0.FeeSplitWeightVote) + QV(&result0.FeeSplitWeightNextPropose) > 0
 //@   note stored parameters passed ConsensusParameters.SanityCheck (genesis and every parameter change): weights are valid quantities and not all zero
+//@   precall \)\.Get$ :: keyId(argAs[[]byte](1)) == keyOf(parametersKeyFmt)
+//@   note partially verified: the state-tree key this accessor reads or writes is checked (call-site obligation); the meaning of the stored bytes (CBOR round trip) stays assumed (ensures-trusted)
 
 // ---- verified functions ----
 
@@ -269,28 +308,37 @@ package state
 //@   ensures err != nil ==> unavail(err)
 
 //@ func ImmutableState.DebondingDelegation
-//@   trusted
+//@   props C05 C08
+//@   trustframe
 //@   modifies nothing
-//@   ensures err != nil ==> result0 == nil && unavail(err)
-//@   ensures err == nil ==> fresh(result0) && QV(&result0.Shares) == GDeb[delegatorAddr][escrowAddr][uint64(epoch)] && QV(&result0.Shares) >= 0
+//@   ensures-trusted err != nil ==> result0 == nil && unavail(err)
+//@   ensures-trusted err == nil ==> fresh(result0) && QV(&result0.Shares) == GDeb[delegatorAddr][escrowAddr][uint64(epoch)] && QV(&result0.Shares) >= 0
+//@   precall \)\.Get$ :: keyId(argAs[[]byte](1)) == keyOf(debondingDelegationKeyFmt, delegatorAddr, escrowAddr, uint64(epoch))
+//@   note partially verified: the state-tree KEY every read and write of this accessor goes to is checked (call-site obligation, key identity = key format and argument values); what the stored bytes mean (the ghost ledger clauses above, CBOR round trip) stays assumed (ensures-trusted)
 
 //@ func MutableState.SetDebondingDelegation
-//@   trusted
+//@   props C05 C08
+//@   trustframe
 //@   modifies GDeb, GDebSum, GWrites, abciAPI.GTreeW
-//@   ensures abciAPI.OnlyTree(s.ms)
-//@   ensures err != nil && !unavail(err) ==> GWrites == old(GWrites) && mapEq(GDeb, old(GDeb)) && mapEq(GDebSum, old(GDebSum))
-//@   ensures err == nil && d != nil ==> mapEq(GDeb, upd(old(GDeb), delegatorAddr, upd(old(GDeb)[delegatorAddr], escrowAddr, upd(old(GDeb)[delegatorAddr][escrowAddr], uint64(epoch), old(GDeb)[delegatorAddr][escrowAddr][uint64(epoch)] + QV(&d.Shares)))))
-//@   ensures err == nil && d != nil ==> mapEq(GDebSum, upd(old(GDebSum), escrowAddr, old(GDebSum)[escrowAddr] + QV(&d.Shares)))
-//@   ensures err == nil && d == nil ==> mapEq(GDeb, upd(old(GDeb), delegatorAddr, upd(old(GDeb)[delegatorAddr], escrowAddr, upd(old(GDeb)[delegatorAddr][escrowAddr], uint64(epoch), 0))))
-//@   ensures err == nil && d == nil ==> mapEq(GDebSum, upd(old(GDebSum), escrowAddr, old(GDebSum)[escrowAddr] - old(GDeb)[delegatorAddr][escrowAddr][uint64(epoch)]))
-//@   ensures err == nil ==> GWrites > old(GWrites)
+//@   ensures-trusted abciAPI.OnlyTree(s.ms)
+//@   ensures-trusted err != nil && !unavail(err) ==> GWrites == old(GWrites) && mapEq(GDeb, old(GDeb)) && mapEq(GDebSum, old(GDebSum))
+//@   ensures-trusted err == nil && d != nil ==> mapEq(GDeb, upd(old(GDeb), delegatorAddr, upd(old(GDeb)[delegatorAddr], escrowAddr, upd(old(GDeb)[delegatorAddr][escrowAddr], uint64(epoch), old(GDeb)[delegatorAddr][escrowAddr][uint64(epoch)] + QV(&d.Shares)))))
+//@   ensures-trusted err == nil && d != nil ==> mapEq(GDebSum, upd(old(GDebSum), escrowAddr, old(GDebSum)[escrowAddr] + QV(&d.Shares)))
+//@   ensures-trusted err == nil && d == nil ==> mapEq(GDeb, upd(old(GDeb), delegatorAddr, upd(old(GDeb)[delegatorAddr], escrowAddr, upd(old(GDeb)[delegatorAddr][escrowAddr], uint64(epoch), 0))))
+//@   ensures-trusted err == nil && d == nil ==> mapEq(GDebSum, upd(old(GDebSum), escrowAddr, old(GDebSum)[escrowAddr] - old(GDeb)[delegatorAddr][escrowAddr][uint64(epoch)]))
+//@   ensures-trusted err == nil ==> GWrites > old(GWrites)
+//@   precall (KeyValueTree\)\.(Insert|Remove)|\)\.Get)$ :: keyId(argAs[[]byte](1)) == keyOf(debondingDelegationKeyFmt, old(delegatorAddr), old(escrowAddr), uint64(epoch)) || (d != nil && keyId(argAs[[]byte](1)) == keyOf(debondingQueueKeyFmt, uint64(d.DebondEndTime), delegatorAddr, escrowAddr))
+//@   note partially verified: the state-tree KEY every read and write of this accessor goes to is checked (call-site obligation, key identity = key format and argument values); what the stored bytes mean (the ghost ledger clauses above, CBOR round trip) stays assumed (ensures-trusted)
 
 //@ func MutableState.RemoveFromDebondingQueue
-//@   trusted
+//@   props C05 C08
+//@   trustframe
 //@   modifies GWrites, abciAPI.GTreeW
-//@   ensures abciAPI.OnlyTree(s.ms)
-//@   ensures err != nil ==> unavail(err)
-//@   ensures err == nil ==> GWrites > old(GWrites)
+//@   ensures-trusted abciAPI.OnlyTree(s.ms)
+//@   ensures-trusted err != nil ==> unavail(err)
+//@   ensures-trusted err == nil ==> GWrites > old(GWrites)
+//@   precall KeyValueTree\)\.Remove$ :: keyId(argAs[[]byte](1)) == keyOf(debondingQueueKeyFmt, uint64(epoch), delegatorAddr, escrowAddr)
+//@   note partially verified: the state-tree KEY every read and write of this accessor goes to is checked (call-site obligation, key identity = key format and argument values); what the stored bytes mean (the ghost ledger clauses above, CBOR round trip) stays assumed (ensures-trusted)
 
 // ---- authentication, fee and nonce (C08, C09) ----
 
@@ -384,16 +432,22 @@ package state
 //@   note iterates the debonding queue keys up to the epoch and loads each debonding delegation (stored shares are valid quantities)
 
 //@ func ImmutableState.EpochSigning
-//@   trusted
+//@   props C05 C08 C10
+//@   trustframe
 //@   modifies nothing
-//@   ensures err != nil ==> result0 == nil
-//@   ensures err == nil ==> result0 != nil
+//@   ensures-trusted err != nil ==> result0 == nil
+//@   ensures-trusted err == nil ==> result0 != nil
+//@   precall \)\.Get$ :: keyId(argAs[[]byte](1)) == keyOf(epochSigningKeyFmt)
+//@   note partially verified: the state-tree key this accessor reads or writes is checked (call-site obligation); the meaning of the stored bytes (CBOR round trip) stays assumed (ensures-trusted)
 
 //@ func MutableState.ClearEpochSigning
-//@   trusted
+//@   props C05 C08 C10
+//@   trustframe
 //@   modifies GWrites, abciAPI.GTreeW
-//@   ensures abciAPI.OnlyTree(s.ms)
+//@   ensures-trusted abciAPI.OnlyTree(s.ms)
 //@   note removes the per-epoch signing record; no balance is stored there
+//@   precall KeyValueTree\)\.Remove$ :: keyId(argAs[[]byte](1)) == keyOf(epochSigningKeyFmt)
+//@   note partially verified: the state-tree key this accessor reads or writes is checked (call-site obligation); the meaning of the stored bytes (CBOR round trip) stays assumed (ensures-trusted)
 
 //@ func EpochSigning.EligibleEntities
 //@   props C01 C05
